@@ -812,4 +812,444 @@ theorem poke_content (s : St) (h i j v : Nat) (m : List Obj) (hi : Inv s) (hm : 
           omega
     · rw [if_neg hj, if_neg hj]
 
+/-! ### generic list helpers -/
+
+theorem pairwise_get {α : Type} {R : α → α → Prop} (hs : ∀ a b, R a b → R b a) {m : List α}
+    (hp : m.Pairwise R) (i j : Nat) (hi : i < m.length) (hj : j < m.length) (hne : i ≠ j) :
+    R m[i] m[j] := by
+  have hp' := List.pairwise_iff_getElem.mp hp
+  rcases Nat.lt_or_gt_of_ne hne with h | h
+  · exact hp' i j hi hj h
+  · exact hs _ _ (hp' j i hj hi h)
+
+theorem pairwise_set {α : Type} {R : α → α → Prop} (hs : ∀ a b, R a b → R b a) {m : List α}
+    (hp : m.Pairwise R) (i : Nat) (o' : α)
+    (h : ∀ j (hj : j < m.length), j ≠ i → R o' m[j]) : (m.set i o').Pairwise R := by
+  rw [List.pairwise_iff_getElem]
+  intro a b ha hb hab
+  simp only [List.length_set] at ha hb
+  simp only [List.getElem_set]
+  by_cases h1 : i = a
+  · rw [if_pos h1]
+    by_cases h2 : i = b
+    · omega
+    · rw [if_neg h2]
+      exact h b hb (fun e => h2 e.symm)
+  · rw [if_neg h1]
+    by_cases h2 : i = b
+    · rw [if_pos h2]
+      exact hs _ _ (h a ha (fun e => h1 e.symm))
+    · rw [if_neg h2]
+      exact List.pairwise_iff_getElem.mp hp a b ha hb hab
+
+theorem mem_insertAt {α : Type} (l : List α) (pos : Nat) (o x : α) :
+    x ∈ insertAt l pos o ↔ x ∈ l ∨ x = o := by
+  unfold insertAt
+  rw [List.mem_append, List.mem_cons]
+  constructor
+  · rintro (h | h | h)
+    · exact Or.inl (List.mem_of_mem_take h)
+    · exact Or.inr h
+    · exact Or.inl (List.mem_of_mem_drop h)
+  · rintro (h | h)
+    · have h' : x ∈ l.take pos ++ l.drop pos := by rw [List.take_append_drop]; exact h
+      rcases List.mem_append.mp h' with h1 | h1
+      · exact Or.inl h1
+      · exact Or.inr (Or.inr h1)
+    · exact Or.inr (Or.inl h)
+
+theorem pairwise_insertAt {α : Type} {R : α → α → Prop} (hs : ∀ a b, R a b → R b a) {l : List α}
+    (hp : l.Pairwise R) (pos : Nat) (o : α) (h : ∀ a ∈ l, R a o) : (insertAt l pos o).Pairwise R := by
+  unfold insertAt
+  rw [List.pairwise_append]
+  refine ⟨hp.sublist (List.take_sublist _ _), ?_, ?_⟩
+  · rw [List.pairwise_cons]
+    exact ⟨fun a ha => hs _ _ (h a (List.mem_of_mem_drop ha)), hp.sublist (List.drop_sublist _ _)⟩
+  · intro a ha b hb
+    rcases List.mem_cons.mp hb with rfl | hb
+    · exact h a (List.mem_of_mem_take ha)
+    · have h' : (l.take pos ++ l.drop pos).Pairwise R := by rw [List.take_append_drop]; exact hp
+      exact (List.pairwise_append.mp h').2.2 a ha b hb
+
+theorem readN_succ (h : Heap) (s n : Nat) : readN h s (n + 1) = readN h s n ++ [h (s + n)] := by
+  unfold readN
+  rw [List.range_succ, List.map_append]
+  rfl
+
+theorem contentM_insertAt (hp : Heap) (l : List Obj) (pos : Nat) (o : Obj) :
+    contentM hp (insertAt l pos o) = insertAt (contentM hp l) pos (o.kind, content hp o) := by
+  unfold contentM insertAt
+  rw [List.map_append, List.map_cons, List.map_take, List.map_drop]
+
+/-- Replacing object `i`: the content list changes at position `i` only, when the other objects read the
+same cells as before. -/
+theorem contentM_set (hp hp' : Heap) (m : List Obj) (i : Nat) (o' : Obj)
+    (hc : ∀ n (hn : n < m.length), n ≠ i → content hp' m[n] = content hp m[n]) :
+    contentM hp' (m.set i o') = (contentM hp m).set i (o'.kind, content hp' o') := by
+  apply List.ext_getElem
+  · simp [contentM]
+  · intro n h1 h2
+    have hn : n < m.length := by simpa [contentM] using h1
+    simp only [contentM, List.getElem_map, List.getElem_set]
+    by_cases hin : i = n
+    · simp only [hin, if_true]
+    · simp only [hin, if_false]
+      rw [hc n hn (fun e => hin e.symm)]
+
+theorem UseDisj.symm {a b : Obj} (h : UseDisj a b) : UseDisj b a := by
+  unfold UseDisj at *; omega
+
+theorem DonDisj.symm {a b : Obj} (h : DonDisj a b) : DonDisj b a :=
+  fun ea eb ha hb => (h eb ea hb ha).symm
+
+/-! ### insertLive, ins -/
+
+@[simp] theorem insertLive_heap (s : St) (d pos : Nat) (o : Obj) : (insertLive s d pos o).heap = s.heap := rfl
+@[simp] theorem insertLive_same (s : St) (d pos : Nat) (o : Obj) :
+    (insertLive s d pos o).live d = some (insertAt ((s.live d).getD []) pos o) := by simp [insertLive]
+@[simp] theorem insertLive_other (s : St) (d pos h : Nat) (o : Obj) (hne : h ≠ d) :
+    (insertLive s d pos o).live h = s.live h := by simp [insertLive, hne]
+
+/-- Inserting into message `d` an object that is disjoint from the pool and from every live object. -/
+theorem Inv.insert {s : St} (hi : Inv s) (d pos : Nat) (o : Obj)
+    (hfit : o.start + o.cap ≤ s.next) (hlen : o.len ≤ o.cap)
+    (hp : ∀ e ∈ s.pool, EntObjDisj e o)
+    (hl : ∀ h m, s.live h = some m → ∀ o2 ∈ m, CapDisj o2 o) :
+    Inv (insertLive s d pos o) := by
+  have key : ∀ h m, (insertLive s d pos o).live h = some m →
+      (h ≠ d ∧ s.live h = some m) ∨ (h = d ∧ m = insertAt ((s.live d).getD []) pos o) := by
+    intro h m hm
+    by_cases hd : h = d
+    · subst hd
+      right
+      simp [insertLive] at hm
+      exact ⟨rfl, hm.symm⟩
+    · left
+      simp [insertLive, hd] at hm
+      exact ⟨hd, hm⟩
+  have mem : ∀ h m, (insertLive s d pos o).live h = some m → ∀ o2 ∈ m,
+      (∃ m0, s.live h = some m0 ∧ o2 ∈ m0) ∨ (h = d ∧ o2 = o) := by
+    intro h m hm o2 ho2
+    rcases key h m hm with ⟨_, h1⟩ | ⟨h1, h2⟩
+    · exact Or.inl ⟨m, h1, ho2⟩
+    · subst h2
+      rcases (mem_insertAt _ _ _ _).mp ho2 with h3 | h3
+      · subst h1; exact Or.inl (mem_getD h3)
+      · right; exact ⟨h1, h3⟩
+  refine ⟨hi.poolBelow, ?_, hi.poolSep, ?_, ?_, ?_, ?_⟩
+  · intro h m hm o2 ho2
+    rcases mem h m hm o2 ho2 with ⟨m0, h1, h2⟩ | ⟨_, rfl⟩
+    · exact hi.liveBelow h m0 h1 o2 h2
+    · exact ⟨hfit, hlen⟩
+  · intro e he h m hm o2 ho2
+    rcases mem h m hm o2 ho2 with ⟨m0, h1, h2⟩ | ⟨_, rfl⟩
+    · exact hi.poolLive e he h m0 h1 o2 h2
+    · exact hp e he
+  · intro h1 h2 m1 m2 hne hm1 hm2 o1 ho1 o2 ho2
+    rcases mem h1 m1 hm1 o1 ho1 with ⟨n1, a1, b1⟩ | ⟨a1, rfl⟩
+    · rcases mem h2 m2 hm2 o2 ho2 with ⟨n2, a2, b2⟩ | ⟨a2, rfl⟩
+      · exact hi.liveSep h1 h2 n1 n2 hne a1 a2 o1 b1 o2 b2
+      · exact hl h1 n1 a1 o1 b1
+    · rcases mem h2 m2 hm2 o2 ho2 with ⟨n2, a2, b2⟩ | ⟨a2, rfl⟩
+      · exact (hl h2 n2 a2 o2 b2).symm
+      · exact absurd (a1.trans a2.symm) hne
+  · intro h m hm
+    rcases key h m hm with ⟨_, h1⟩ | ⟨h1, h2⟩
+    · exact hi.useSep h m h1
+    · subst h2; subst h1
+      apply pairwise_insertAt (fun _ _ => UseDisj.symm)
+      · cases hq : s.live h with
+        | none => simp
+        | some m0 => exact hi.useSep h m0 hq
+      · intro a ha
+        obtain ⟨m0, h1, h2⟩ := mem_getD ha
+        exact (hl h m0 h1 a h2).use (hi.liveBelow h m0 h1 a h2).2 hlen
+  · intro h m hm
+    rcases key h m hm with ⟨_, h1⟩ | ⟨h1, h2⟩
+    · exact hi.donSep h m h1
+    · subst h2; subst h1
+      apply pairwise_insertAt (fun _ _ => DonDisj.symm)
+      · cases hq : s.live h with
+        | none => simp
+        | some m0 => exact hi.donSep h m0 hq
+      · intro a ha
+        obtain ⟨m0, h1, h2⟩ := mem_getD ha
+        exact (hl h m0 h1 a h2).don
+
+/-- `mkObj` followed by `insertLive`: invariant, requested fields, frame. -/
+theorem ins_spec (s : St) (d pos : Nat) (u : Bool) (k : Nat) (vals : List Nat) (hi : Inv s) :
+    Inv (insertLive (mkObj s u k vals).1 d pos (mkObj s u k vals).2.1) ∧
+    (mkObj s u k vals).1.live = s.live ∧
+    (mkObj s u k vals).2.1.kind = k ∧
+    content (mkObj s u k vals).1.heap (mkObj s u k vals).2.1 = vals ∧
+    (∀ h m, s.live h = some m → ∀ o ∈ m, content (mkObj s u k vals).1.heap o = content s.heap o) := by
+  obtain ⟨pool', next', st, cp, b, hacq, hsub, hn, hneed, hfit, hpool, hlive⟩ :=
+    acquire_spec s u k vals.length hi
+  have hm : mkObj s u k vals =
+      ({ heap := writeL s.heap st vals, next := next', pool := pool', live := s.live },
+       { kind := k, start := st, len := vals.length, cap := cp }, b) := by
+    simp only [mkObj, hacq]
+  rw [hm]
+  refine ⟨?_, rfl, rfl, ?_, ?_⟩
+  · apply (hi.shrink (writeL s.heap st vals) pool' next' hsub hn).insert d pos
+    · exact hfit
+    · exact hneed
+    · intro e he
+      have := hpool e he
+      unfold EntObjDisj
+      exact this
+    · intro h m hm' o ho
+      have := hlive h m hm' o ho
+      unfold CapDisj
+      exact this
+  · exact readN_writeL_same s.heap st vals
+  · intro h m hm' o ho
+    exact content_writeL_disj s.heap st cp vals o (hi.liveBelow h m hm' o ho).2 hneed (hlive h m hm' o ho)
+
+/-! ### grow -/
+
+/-- Side condition of an in-place `append` to object `i` of message `h`: the cell it writes, the first
+spare one, is not in use by a sibling object of the same message.  (In a message unpacked by `miekg/dns`
+several address hints are sub-slices of one array; appending to one would overwrite the next.) -/
+def GrowOk (s : St) (h i : Nat) : Prop :=
+  ∀ m o, s.live h = some m → m[i]? = some o → o.len < o.cap →
+    ∀ j (hj : j < m.length), j ≠ i →
+      m[j].len = 0 ∨ o.start + o.len < m[j].start ∨ m[j].start + m[j].len ≤ o.start + o.len
+
+instance (s : St) (h i : Nat) : Decidable (GrowOk s h i) :=
+  match hm : s.live h with
+  | none => isTrue (fun m o h1 => by rw [hm] at h1; cases h1)
+  | some m =>
+    match ho : m[i]? with
+    | none => isTrue (fun m' o h1 h2 => by
+        rw [hm] at h1; cases h1; rw [ho] at h2; cases h2)
+    | some o =>
+      if hlt : o.len < o.cap then
+        decidable_of_iff (∀ j (hj : j < m.length), j ≠ i →
+            m[j].len = 0 ∨ o.start + o.len < m[j].start ∨ m[j].start + m[j].len ≤ o.start + o.len)
+          ⟨fun hall m' o' h1 h2 _ => by
+              rw [hm] at h1; cases h1; rw [ho] at h2; cases h2; exact hall,
+           fun hg => hg m o hm ho hlt⟩
+      else isTrue (fun m' o' h1 h2 h3 => by
+        rw [hm] at h1; cases h1; rw [ho] at h2; cases h2; exact absurd h3 hlt)
+
+/-- Replacing object `i` of the live message `h` by `o'` (any heap, more cells allocated, same pool). -/
+theorem Inv.setObj {s : St} (hi : Inv s) (hp : Heap) (next' h i : Nat) (m : List Obj) (o' : Obj)
+    (hm : s.live h = some m) (hn : s.next ≤ next')
+    (hfit : o'.start + o'.cap ≤ next') (hlen : o'.len ≤ o'.cap)
+    (hpool : ∀ e ∈ s.pool, EntObjDisj e o')
+    (hlive : ∀ h2 m2, h2 ≠ h → s.live h2 = some m2 → ∀ o2 ∈ m2, CapDisj o' o2)
+    (hu : ∀ j (hj : j < m.length), j ≠ i → UseDisj o' m[j])
+    (hd : ∀ j (hj : j < m.length), j ≠ i → DonDisj o' m[j]) :
+    Inv { heap := hp, next := next', pool := s.pool, live := setLive s.live h (some (m.set i o')) } := by
+  have mem : ∀ h2 m2, setLive s.live h (some (m.set i o')) h2 = some m2 → ∀ o2 ∈ m2,
+      (h2 = h ∧ o2 = o') ∨ (∃ m0, s.live h2 = some m0 ∧ o2 ∈ m0) := by
+    intro h2 m2 hm2 o2 ho2
+    rcases setLive_some hm2 with ⟨a1, b1⟩ | ⟨a1, b1⟩
+    · cases b1
+      rcases List.mem_or_eq_of_mem_set ho2 with h3 | h3
+      · exact Or.inr ⟨m, a1 ▸ hm, h3⟩
+      · exact Or.inl ⟨a1, h3⟩
+    · exact Or.inr ⟨m2, b1, ho2⟩
+  refine ⟨?_, ?_, hi.poolSep, ?_, ?_, ?_, ?_⟩
+  · intro e he
+    have := hi.poolBelow e he
+    show e.start + e.size ≤ next'
+    omega
+  · intro h2 m2 hm2 o2 ho2
+    show o2.start + o2.cap ≤ next' ∧ o2.len ≤ o2.cap
+    rcases mem h2 m2 hm2 o2 ho2 with ⟨_, rfl⟩ | ⟨m0, a1, b1⟩
+    · exact ⟨hfit, hlen⟩
+    · have := hi.liveBelow h2 m0 a1 o2 b1
+      omega
+  · intro e he h2 m2 hm2 o2 ho2
+    rcases mem h2 m2 hm2 o2 ho2 with ⟨_, rfl⟩ | ⟨m0, a1, b1⟩
+    · exact hpool e he
+    · exact hi.poolLive e he h2 m0 a1 o2 b1
+  · intro h1 h2 m1 m2 hne hm1 hm2 o1 ho1 o2 ho2
+    rcases mem h1 m1 hm1 o1 ho1 with ⟨a1, rfl⟩ | ⟨n1, a1, b1⟩
+    · rcases mem h2 m2 hm2 o2 ho2 with ⟨a2, rfl⟩ | ⟨n2, a2, b2⟩
+      · exact absurd (a1.trans a2.symm) hne
+      · exact hlive h2 n2 (fun e => hne (a1.trans e.symm)) a2 o2 b2
+    · rcases mem h2 m2 hm2 o2 ho2 with ⟨a2, rfl⟩ | ⟨n2, a2, b2⟩
+      · exact (hlive h1 n1 (fun e => hne (e.trans a2.symm)) a1 o1 b1).symm
+      · exact hi.liveSep h1 h2 n1 n2 hne a1 a2 o1 b1 o2 b2
+  · intro h2 m2 hm2
+    rcases setLive_some hm2 with ⟨_, b1⟩ | ⟨_, b1⟩
+    · cases b1
+      exact pairwise_set (fun _ _ => UseDisj.symm) (hi.useSep h m hm) i o' hu
+    · exact hi.useSep h2 m2 b1
+  · intro h2 m2 hm2
+    rcases setLive_some hm2 with ⟨_, b1⟩ | ⟨_, b1⟩
+    · cases b1
+      exact pairwise_set (fun _ _ => DonDisj.symm) (hi.donSep h m hm) i o' hd
+    · exact hi.donSep h2 m2 b1
+
+/-- `grow`: invariant, other messages keep their objects, and what those objects hold. -/
+theorem grow_spec (s : St) (h i v c : Nat) (hi : Inv s) (hok : GrowOk s h i) :
+    Inv (grow s h i v c) ∧
+    (∀ h2, h2 ≠ h → (grow s h i v c).live h2 = s.live h2) ∧
+    (∀ h2 m2, h2 ≠ h → s.live h2 = some m2 → ∀ o2 ∈ m2,
+      content (grow s h i v c).heap o2 = content s.heap o2) := by
+  unfold grow
+  split
+  · exact ⟨hi, fun _ _ => rfl, fun _ _ _ _ _ _ => rfl⟩
+  · rename_i m hq
+    split
+    · exact ⟨hi, fun _ _ => rfl, fun _ _ _ _ _ _ => rfl⟩
+    · rename_i o hg
+      have hil : i < m.length := (List.getElem?_eq_some_iff.mp hg).1
+      have hio : m[i] = o := (List.getElem?_eq_some_iff.mp hg).2
+      have ho : o ∈ m := List.mem_of_getElem? hg
+      have hb := hi.liveBelow h m hq o ho
+      split
+      · rename_i hlt
+        refine ⟨?_, fun h2 hne => setLive_other _ _ _ _ hne, ?_⟩
+        · apply hi.setObj _ s.next h i m _ hq (Nat.le_refl _)
+          · exact hb.1
+          · show o.len + 1 ≤ o.cap
+            omega
+          · intro e he
+            exact hi.poolLive e he h m hq o ho
+          · intro h2 m2 hne hm2 o2 ho2
+            exact hi.liveSep h h2 m m2 (Ne.symm hne) hq hm2 o ho o2 ho2
+          · intro j hj hne
+            have h1 := pairwise_get (fun _ _ => UseDisj.symm) (hi.useSep h m hq) i j hil hj (Ne.symm hne)
+            rw [hio] at h1
+            have h2 := hok m o hq hg hlt j hj hne
+            unfold UseDisj at *
+            show o.len + 1 = 0 ∨ m[j].len = 0 ∨ o.start + (o.len + 1) ≤ m[j].start ∨ m[j].start + m[j].len ≤ o.start
+            omega
+          · intro j hj hne
+            have h1 := pairwise_get (fun _ _ => DonDisj.symm) (hi.donSep h m hq) i j hil hj (Ne.symm hne)
+            rw [hio] at h1
+            exact h1
+        · intro h2 m2 hne hm2 o2 ho2
+          have h1 := hi.liveSep h h2 m m2 (Ne.symm hne) hq hm2 o ho o2 ho2
+          have h3 := hi.liveBelow h2 m2 hm2 o2 ho2
+          unfold CapDisj at h1
+          show content (writeL s.heap (o.start + o.len) [v]) o2 = content s.heap o2
+          unfold content
+          apply readN_writeL_disj
+          simp only [List.length_singleton]
+          omega
+      · refine ⟨?_, fun h2 hne => setLive_other _ _ _ _ hne, ?_⟩
+        · apply hi.setObj _ (s.next + max c (o.len + 1)) h i m _ hq (Nat.le_add_right _ _)
+          · exact Nat.le_refl _
+          · exact Nat.le_max_right _ _
+          · intro e he
+            have := hi.poolBelow e he
+            unfold EntObjDisj
+            show e.size = 0 ∨ max c (o.len + 1) = 0 ∨ e.start + e.size ≤ s.next ∨ _
+            omega
+          · intro h2 m2 hne hm2 o2 ho2
+            have := hi.liveBelow h2 m2 hm2 o2 ho2
+            unfold CapDisj
+            show max c (o.len + 1) = 0 ∨ o2.cap = 0 ∨ _ ∨ o2.start + o2.cap ≤ s.next
+            omega
+          · intro j hj hne
+            have := hi.liveBelow h m hq m[j] (List.getElem_mem hj)
+            unfold UseDisj
+            show o.len + 1 = 0 ∨ m[j].len = 0 ∨ _ ∨ m[j].start + m[j].len ≤ s.next
+            omega
+          · intro j hj hne ea eb ha hb'
+            have h1 := donate_inside _ ea ha
+            have h2 := donate_inside _ eb hb'
+            have := hi.liveBelow h m hq m[j] (List.getElem_mem hj)
+            replace h1 : ea.start = s.next := h1.1
+            unfold EntDisj
+            omega
+        · intro h2 m2 hne hm2 o2 ho2
+          have h3 := hi.liveBelow h2 m2 hm2 o2 ho2
+          show content (writeL s.heap s.next (content s.heap o ++ [v])) o2 = content s.heap o2
+          unfold content
+          apply readN_writeL_disj
+          omega
+
+/-- `append` on what the holder sees. -/
+def growView (l : List (Nat × List Nat)) (i v : Nat) : List (Nat × List Nat) :=
+  match l[i]? with
+  | none => l
+  | some kc => l.set i (kc.1, kc.2 ++ [v])
+
+theorem grow_none (s : St) (h i v c : Nat) (hm : s.live h = none) : grow s h i v c = s := by
+  unfold grow
+  rw [hm]
+
+/-- `grow` on the content of its target: one value more at the end of object `i`, in place or not. -/
+theorem grow_content (s : St) (h i v c : Nat) (m : List Obj) (hi : Inv s) (hok : GrowOk s h i)
+    (hm : s.live h = some m) :
+    ∃ m', (grow s h i v c).live h = some m' ∧
+      contentM (grow s h i v c).heap m' = growView (contentM s.heap m) i v := by
+  unfold grow growView
+  rw [hm]
+  simp only [contentM, List.getElem?_map]
+  cases hg : m[i]? with
+  | none => exact ⟨m, hm, rfl⟩
+  | some o =>
+    have hil : i < m.length := (List.getElem?_eq_some_iff.mp hg).1
+    have ho : o ∈ m := List.mem_of_getElem? hg
+    simp only [Option.map_some]
+    by_cases hlt : o.len < o.cap
+    · rw [if_pos hlt]
+      refine ⟨_, setLive_same _ _ _, ?_⟩
+      show contentM (writeL s.heap (o.start + o.len) [v]) (m.set i { o with len := o.len + 1 }) = _
+      rw [contentM_set s.heap]
+      · show (contentM s.heap m).set i
+          (o.kind, readN (writeL s.heap (o.start + o.len) [v]) o.start (o.len + 1)) = _
+        rw [readN_succ, readN_writeL_disj _ _ _ _ _ (by omega)]
+        have : writeL s.heap (o.start + o.len) [v] (o.start + o.len) = v :=
+          writeL_in s.heap (o.start + o.len) [v] 0 (by simp)
+        rw [this]
+        rfl
+      · intro n hn hne
+        have h2 := hok m o hm hg hlt n hn hne
+        unfold content
+        apply readN_writeL_disj
+        simp only [List.length_singleton]
+        omega
+    · rw [if_neg hlt]
+      refine ⟨_, setLive_same _ _ _, ?_⟩
+      show contentM (writeL s.heap s.next (content s.heap o ++ [v]))
+        (m.set i { kind := o.kind, start := s.next, len := o.len + 1, cap := max c (o.len + 1) }) = _
+      rw [contentM_set s.heap]
+      · show (contentM s.heap m).set i
+          (o.kind, readN (writeL s.heap s.next (content s.heap o ++ [v])) s.next (o.len + 1)) = _
+        have hl : o.len + 1 = (content s.heap o ++ [v]).length := by
+          simp [content, readN_length]
+        rw [hl, readN_writeL_same]
+        rfl
+      · intro n hn hne
+        have := hi.liveBelow h m hm m[n] (List.getElem_mem hn)
+        unfold content
+        apply readN_writeL_disj
+        omega
+
+/-! ### spare capacity is not shared between messages -/
+
+theorem overlapCap_false {a b : Obj} (h : CapDisj a b) : overlapCap a b = false := by
+  unfold CapDisj at h
+  simp only [overlapCap, disj, Bool.not_eq_false', Bool.or_eq_true, beq_iff_eq, decide_eq_true_eq]
+  omega
+
+theorem anyCapAlias_false (s : St) (hi : Inv s) (n : Nat) : anyCapAlias s n = false := by
+  unfold anyCapAlias
+  rw [List.any_eq_false]
+  intro h1 _
+  rw [Bool.not_eq_true, List.any_eq_false]
+  intro h2 _
+  rw [Bool.not_eq_true]
+  by_cases hne : h1 = h2
+  · simp [hne]
+  · rw [Bool.and_eq_false_iff]
+    right
+    rw [List.any_eq_false]
+    intro o1 ho1
+    rw [Bool.not_eq_true, List.any_eq_false]
+    intro o2 ho2
+    obtain ⟨m1, a1, b1⟩ := mem_getD ho1
+    obtain ⟨m2, a2, b2⟩ := mem_getD ho2
+    rw [overlapCap_false (hi.liveSep h1 h2 m1 m2 hne a1 a2 o1 b1 o2 b2)]
+    simp
+
 end Agd.Pools
